@@ -470,3 +470,33 @@ Example C19_exclude_schema_scope_nonvacuous :
                mkTable sc_secret false false [sc_col sc_main] None [] [] []];
             mkSchema sc_secret [mkTable sc_main false false [sc_col sc_secret] None [] [] []]].
 Proof. split; [vm_compute; reflexivity|]. split; [vm_compute; reflexivity|]. split; vm_compute; reflexivity. Qed.
+
+(** ** C19_match_literal_exact (round 4).  Names that only a real glob tells apart: a pattern
+    without glob meta characters is compared byte by byte -- an underscore or a percent sign in a
+    pattern is NOT a wildcard (SQL LIKE), letter case is NOT folded, a prefix does NOT match.
+    For every pattern [p] made of plain bytes (anything but STAR, question mark, brackets,
+    backslash; also no dot / double quote / CR / LF, which the pattern splitter takes) and EVERY
+    name [n] (any bytes): [filepath.Match p n = (p = n)].  With C19_match_spec (well-formed patterns
+    with meta characters on plain names) this fixes the meaning of every table-level pattern; the
+    tie runs the name sets of harness/cmd/glob/globonly.go (users / user_sessions / userXsessions,
+    logs / log_1, Audit, a%b, a_b, aXb, ...) through ExcludeRealm, the SQLite driver and the CLI. *)
+Theorem C19_match_literal_exact :
+  forall p n : bytes, plain_schema_name p ->
+    Match p n = Ok (bytes_eqb p n) /\ (Match p n = Ok true <-> p = n).
+Proof.
+  intros p n Hp. split; [exact (Match_plain p n Hp)|].
+  rewrite (Match_plain p n Hp). split.
+  - intros H. inversion H as [H']. apply bytes_eqb_eq. exact H'.
+  - intros H. subst. rewrite bytes_eqb_refl. reflexivity.
+Qed.
+Print Assumptions C19_match_literal_exact.
+
+(** non-vacuity: user_ / users, audit / Audit, a%b / axyb, a_b / aXb do not match; a_b / a_b does *)
+Example C19_match_literal_nonvacuous :
+  plain_schema_name [117;115;101;114;95]%N                                     (* user_ *)
+  /\ Match [117;115;101;114;95]%N [117;115;101;114;115]%N = Ok false           (* user_ vs users *)
+  /\ Match [97;117;100;105;116]%N [65;117;100;105;116]%N = Ok false            (* audit vs Audit *)
+  /\ Match [97;37;98]%N [97;120;121;98]%N = Ok false                           (* a%b vs axyb *)
+  /\ Match [97;95;98]%N [97;88;98]%N = Ok false                                (* a_b vs aXb *)
+  /\ Match [97;95;98]%N [97;95;98]%N = Ok true.                                (* a_b vs a_b *)
+Proof. repeat split; vm_compute; reflexivity. Qed.
